@@ -101,15 +101,30 @@ def main():
                 if rc == 1 and a.tier == "auto":
                     break
         shutil.rmtree(f"{VERIF}/harness/target-mut-seed-{name}", ignore_errors=True)
+        shutil.rmtree(f"{VERIF}/harness/target-mut-seed-{name}-rel", ignore_errors=True)
     meta["checks"] = results
     meta["detected"] = any(v["exit"] == 1 for v in results.values())
     # keep
     dst = os.path.join(VERIF, "seeded", name)
     os.makedirs(dst, exist_ok=True)
-    shutil.copy(os.path.join(src, "patch.diff"), dst)
-    shutil.copy(os.path.join(src, "demo.rs"), dst)
-    if os.path.exists(os.path.join(src, "notes.md")):
-        shutil.copy(os.path.join(src, "notes.md"), dst)
+    if os.path.realpath(src) != os.path.realpath(dst):
+        shutil.copy(os.path.join(src, "patch.diff"), dst)
+        shutil.copy(os.path.join(src, "demo.rs"), dst)
+        if os.path.exists(os.path.join(src, "notes.md")):
+            shutil.copy(os.path.join(src, "notes.md"), dst)
+    # a re-run after the checks were strengthened keeps the earlier outcome for the record
+    old_meta = os.path.join(dst, "meta.json")
+    if os.path.exists(old_meta):
+        try:
+            old = json.load(open(old_meta))
+            hist = old.get("earlier_runs", [])
+            hist.append({"checks": old.get("checks"), "detected": old.get("detected")})
+            meta["earlier_runs"] = hist
+            for k in ("what", "needs"):
+                if k in old:
+                    meta[k] = old[k]
+        except Exception:
+            pass
     json.dump(meta, open(os.path.join(dst, "meta.json"), "w"), indent=1)
     sh(f"git -C /repo worktree remove --force {wt}")
     shutil.rmtree(wt, ignore_errors=True)
